@@ -100,12 +100,13 @@ impl Monitor for Mon {
         // timing
         if fe == Frontend::Nb {
             if let (Some(t1), Some(done)) = (obs.timeout_requests.first(), obs.tx_done) {
-                let want: Vec<i64> = exp.delay1_ms.iter().map(|d| done as i64 + *d as i64 + nb_off as i64).collect();
+                // 32-bit millisecond clock: all times modulo 2^32
+                let want: Vec<i64> = exp.delay1_ms.iter().map(|d| (done as i64 + *d as i64 + nb_off as i64).rem_euclid(1 << 32)).collect();
                 if !want.contains(&(*t1 as i64)) {
                     return Some(Violation::new("C10.rx1-time", "nb", format!("{ctx}: RX1 requested at t={t1} with TxDone at {done} and board offset {nb_off}, expected {want:?}")));
                 }
                 if let Some(t2) = obs.timeout_requests.get(2) {
-                    if *t2 as i64 != *t1 as i64 + 1000 {
+                    if *t2 != t1.wrapping_add(1000) {
                         return Some(Violation::new("C10.rx2-time", "nb", format!("{ctx}: RX2 requested at t={t2}, RX1 at t={t1}: not 1 s apart")));
                     }
                     stats.bump("probe.rx2-time-checked");
